@@ -87,7 +87,7 @@ class TypeGen:
                 b = self.cls()
             return ["lit", vals, b]
         if kind == "prod":
-            k = rng.choice([1, 2, 2, 3])
+            k = rng.choice([0, 1, 2, 2, 3])  # tuple[()] included: the empty product
             return ["prod", [sub() for _ in range(k)], ["cls", C_TUPLE]]
         if kind == "fdep":
             fn = rng.randrange(3)
